@@ -19,8 +19,19 @@ def gen_case(rng, min_len_only=False):
     mm = n // 2 + m
     size = 2 * mm + 2
     num = size if min_len_only else rng.randint(size, 60)
-    kind = rng.choice(['uniform', 'nonuniform', 'dyadic'])
-    if kind == 'uniform':
+    kind = rng.choice(['uniform', 'nonuniform', 'dyadic', 'almost-uniform', 'fine'])
+    if kind == 'almost-uniform':
+        # an equidistant grid with nodes displaced by a small fraction of the spacing: still an arbitrary grid, not a uniform one
+        h = rng.choice([1.0, 0.5, 0.25, 0.1])
+        rel = 10.0 ** rng.uniform(-9, -3)
+        base = rng.randint(-8, 8) / 4
+        x = [base + h * (i + rel * rng.uniform(-1, 1)) for i in range(num)]
+    elif kind == 'fine':
+        # spacing far below 1 (absolute tolerances must not decide what "equidistant" means), slightly non-uniform
+        h = 10.0 ** rng.uniform(-9, -5)
+        base = rng.uniform(-2, 2)
+        x = [base + h * (i + 0.3 * rng.uniform(-1, 1)) for i in range(num)]
+    elif kind == 'uniform':
         h = rng.choice([1.0, 0.5, 0.25, 0.125])
         base = rng.randint(-8, 8) / 4
         x = [base + h * i for i in range(num)]
